@@ -53,6 +53,13 @@ class C13(Prop):
             out.extend(self._all_graphs(n))
         nr, nmax = (300, 40) if tier == "quick" else (1000, 80)  # 3000 graphs on up to 120 nodes cost 35 min of coqc for literals alone
         out += [self._random(rng, nmax) for _ in range(nr)]
+        # history: the same events were grouped before, by the same comparison object, under another relation (a callable
+        # whose threshold was changed; events whose geometry was corrected keep their uuid)
+        for _ in range(nr // 5):
+            c = self._random(rng, 12)
+            b = self._random(rng, 12)
+            c["before"] = [p for p in b["sim"] if p[0] < c["n"] and p[1] < c["n"]]
+            out.append(c)
         return out
 
     def search_cases(self, rng, n):
@@ -69,10 +76,17 @@ class C13(Prop):
         calls = []
 
         def cmp(a, b):
+            nonlocal sim
             i, j = index.get(id(a), -1), index.get(id(b), -1)
             calls.append([i, j])
             return (i, j) in sim or (j, i) in sim
 
+        if c.get("before") is not None:
+            now = sim
+            sim = {tuple(p) for p in c["before"]}
+            guarded(group_sound_events, evs, cmp, timeout=60)
+            sim = now
+            calls.clear()
         r = guarded(group_sound_events, evs, cmp, timeout=60)
         if r[0] != "ok":
             return {"res": ["err", r[1]], "msg": r[2], "calls": calls}
